@@ -40,6 +40,20 @@ WeakCores(dims, seed) ==
 WeakConfigs == {[weak |-> TRUE, dims |-> [k \in 1..d |-> 2], seed |-> seed, e |-> 3, steps |-> 2] : d \in 2..4, seed \in {1, 2}}
 WeakIsland(c) == [H |-> LocalSumFrom(Len(c.dims), c.seed, 1), x0 |-> WeakCores(c.dims, c.seed)]
 
+\* Hopping chain  H = sum_i (s+_i s-_{i+1} + s-_i s+_{i+1})  (number conserving, entangling).  The replay starts from a
+\* basis state stored with maximal ranks (zero padding, right-orthonormalised): the padded bond directions carry no weight
+\* and H does not populate them at once, yet at maximal ranks the projector is the identity and nothing may be dropped.
+SPlus == <<<<CZ, C1>>, <<CZ, CZ>>>>
+SMinus == <<<<CZ, CZ>>, <<C1, CZ>>>>
+HopTerm(d, i, P, Q) == RankOneOp([k \in 1..d |-> IF k = i THEN P ELSE IF k = i + 1 THEN Q ELSE Eye2])
+RECURSIVE HopFrom(_, _)
+HopFrom(d, i) ==
+    LET two == AddCores(HopTerm(d, i, SPlus, SMinus), HopTerm(d, i, SMinus, SPlus))
+    IN  IF i = d - 1 THEN two ELSE AddCores(two, HopFrom(d, i + 1))
+HopConfigs == {[hop |-> TRUE, dims |-> [k \in 1..d |-> 2], site |-> st, cplx |-> FALSE, e |-> 4, steps |-> 3] :
+                  d \in (IF Level = 1 THEN {3, 4} ELSE {3, 4, 5, 6}), st \in {1, 2}}
+HopIsland(c) == [H |-> HopFrom(Len(c.dims), 1)]
+
 \* size-1 modes give rank-1 bonds also at maximal ranks (1x1 bond matrices in the one-site scheme)
 TdvpDims == IF Level = 1 THEN {<<2>>, <<3>>, <<2, 2>>, <<2, 2, 2>>, <<3, 2>>, <<1, 2, 2>>, <<2, 2, 1>>}
             ELSE {<<2>>, <<2, 2>>, <<2, 2, 2>>, <<3, 2>>, <<2, 3, 2>>, <<2, 2, 2, 2>>, <<1, 2, 2>>, <<2, 3, 1>>, <<2, 1, 2>>, <<1, 3, 2, 1>>}
@@ -48,8 +62,10 @@ TdvpConfigs ==
               rg \in {1, 2}, kd \in {<<"ind", 6>>, <<"pd", 9>>}, cplx \in BOOLEAN, seed \in {1}, r0 \in RankProfiles(dims),
               n \in {1, 3}} : dims \in TdvpDims}
 TdvpIx(c) == ISum(c.dims) * 3 + ISum(c.r0) * 5 + c.rg + c.steps * 7 + (IF c.cplx THEN 1 ELSE 0) + Len(c.kind)
-TInit == cfg \in ({c \in TdvpConfigs : TdvpIx(c) % NShards = Shard} \cup {c \in WeakConfigs : (Len(c.dims) + c.seed) % NShards = Shard}) /\ out = <<>>
-TBuild == out = <<>> /\ out' = <<IF "weak" \in DOMAIN cfg THEN WeakIsland(cfg) ELSE TdvpIsland(cfg)>> /\ UNCHANGED cfg
+TInit == cfg \in ({c \in TdvpConfigs : TdvpIx(c) % NShards = Shard} \cup {c \in WeakConfigs : (Len(c.dims) + c.seed) % NShards = Shard}
+                  \cup {c \in HopConfigs : (Len(c.dims) + c.site) % NShards = Shard}) /\ out = <<>>
+TBuild == out = <<>> /\ out' = <<IF "weak" \in DOMAIN cfg THEN WeakIsland(cfg) ELSE IF "hop" \in DOMAIN cfg THEN HopIsland(cfg)
+                                 ELSE TdvpIsland(cfg)>> /\ UNCHANGED cfg
 TNext == TBuild
 TEmit == out # <<>> => PrintT("@@CASE " \o ToJson([cfg |-> cfg, isl |-> out[1], maxranks |-> MaxRanks(cfg.dims)]))
 =============================================================================
